@@ -70,7 +70,18 @@ def _child(job, conn):
         conn.close()
 
 
-def _killed(job, why):
+def _killed(job, why, died=False):
+    """died: the worker process vanished (interpreter crash inside C code, os._exit): nothing was decided for this
+    instance and it must not pass as 'held' -> harness error (exit 3).  A wall-clock kill stays inconclusive."""
+    prop, hname, idx, tier, seed, _ = job
+    res = _killed0(job, why)
+    if died:
+        res["harness_errors"] = ["instance %d: %s (the interpreter crashed while running this harness: no verdict)"
+                                 % (idx, why)]
+    return res
+
+
+def _killed0(job, why):
     prop, hname, idx, tier, seed, _ = job
     return dict(property=prop, harness=hname, params={"_idx": idx}, tier=tier, paths=0, paths_nontrivial=0,
                 exhaustive=False, aborted=[why], obligations=0, discharged=0, trivial=0, inconclusive=[],
@@ -101,11 +112,11 @@ def _schedule(jobs, nproc, hard_s):
                 try:
                     results[i] = pc.recv()
                 except EOFError:
-                    results[i] = _killed(job, "worker died without an answer")
+                    results[i] = _killed(job, "worker died without an answer", died=True)
                 p.join(5)
                 del running[i]
             elif not p.is_alive():
-                results[i] = _killed(job, "worker died without an answer")
+                results[i] = _killed(job, "worker died without an answer", died=True)
                 del running[i]
             elif time.time() - t0 > hard_s:
                 p.kill()
